@@ -69,8 +69,11 @@ def _r1(ctx):
               "reduce_to_section is not `lines[start:end]` with missing markers mapped to the file's bounds", r.qname,
               "section slice")
     for isa, fn in (("x86", "find_marked_kernel_x86ATT"), ("aarch64", "find_marked_kernel_AArch64")):
-        hit = [n for n in ast.walk(r.node) if isinstance(n, ast.If) and U(n.test) == "isa == '%s'" % isa
-               and any(U(s) == "start, end = %s(%s)" % (fn, k) for s in n.body)]
+        # the unpacking statement sits where `isa == '<isa>'` holds (branch, elif, or after a guard clause)
+        unp = [n for n in ast.walk(r.node) if isinstance(n, ast.Assign) and U(n.value) == "%s(%s)" % (fn, k)
+               and U(n.targets[0]) in ("(start, end)", "start, end")]
+        # (canonicalisation splits `a, b = f(x)` only for tuple values, so the unpacking stays one statement)
+        hit = [n for n in unp if C.holds_at(n, "isa == '%s'" % isa)]
         ctx.check(bool(hit), "R1", "%s kernels use %s with (start, end) unpacking" % (isa, fn), r.where(),
                   "reduce_to_section no longer unpacks start, end = %s(lines) for %s" % (fn, isa), r.qname, "dispatch " + isa)
     # match_bytes lockstep
